@@ -18,6 +18,8 @@ class Entry:
 
     def data(self):
         z = self._z
+        if self.data_start is None:
+            raise ZipError("no local header for %r" % self.name)
         raw = z.b[self.data_start:self.data_end]
         if self.usize == 0 and self.data_start == self.data_end:
             return b""
@@ -45,19 +47,21 @@ class Zip:
     def __init__(self, b, limit=None):
         self.b = b
         end = len(b) if limit is None else limit
-        # end of central directory record: last signature whose comment length reaches exactly the end
+        # end of central directory record: the last signature whose comment fits in the file. Bytes after the comment are not
+        # part of the archive (standard readers tolerate them); formats that protect the whole file look at file_end themselves.
         pos = None
         i = end - 22
-        lo = max(0, end - 22 - 65535)
+        lo = max(0, end - 22 - 65535 - 4096)
         while i >= lo:
-            if b[i:i + 4] == b"PK\x05\x06" and i + 22 + struct.unpack_from("<H", b, i + 20)[0] == end:
+            if b[i:i + 4] == b"PK\x05\x06" and i + 22 + struct.unpack_from("<H", b, i + 20)[0] <= end:
                 pos = i
                 break
             i -= 1
         if pos is None:
             raise ZipError("no end of central directory record")
         self.eocd = pos
-        self.end = end
+        self.file_end = end
+        self.end = pos + 22 + struct.unpack_from("<H", b, pos + 20)[0]
         disk, cddisk, n_here, n, cdsize, cdoff, clen = struct.unpack_from("<HHHHIIH", b, pos + 4)
         self.comment = b[pos + 22:pos + 22 + clen]
         self.z64loc = self.z64eocd = None
@@ -67,19 +71,20 @@ class Zip:
             if b[z64off:z64off + 4] != b"PK\x06\x06":
                 raise ZipError("zip64 locator points nowhere")
             self.z64eocd = z64off
-            n64, cdsize64, cdoff64 = struct.unpack_from("<QQQ", b, z64off + 32)
-            if n == 0xffff:
-                n = n64
-            if cdsize == 0xffffffff:
-                cdsize = cdsize64
-            if cdoff == 0xffffffff:
-                cdoff = cdoff64
+            # readers differ on which record wins when both are present; the zip64 record is authoritative once a locator exists
+            # (python zipfile; go archive/zip as soon as one classic field is saturated)
+            n, cdsize, cdoff = struct.unpack_from("<QQQ", b, z64off + 32)
         self.cd_start, self.cd_size, self.n = cdoff, cdsize, n
         self.entries = []
         p = cdoff
-        for _ in range(n):
+        if cdoff + cdsize > end:
+            raise ZipError("central directory beyond file")
+        count = 0
+        while p < cdoff + cdsize:
+            # the directory is the run of entries inside [offset, offset+size); the entry count is a 16-bit cross-check for readers
             if b[p:p + 4] != b"PK\x01\x02" or p + 46 > end:
                 raise ZipError("bad central directory entry at %d" % p)
+            count += 1
             (vm, vn, flags, method, mt, md, crc, csize, usize, nl, xl, cl, dn, ia, ea, lho) = struct.unpack_from("<HHHHHHIIIHHHHHII", b, p + 4)
             e = Entry()
             e._z = self
@@ -111,22 +116,26 @@ class Zip:
                 e.data_start = e.data_end = e.rec_end = min(lho, end)
                 self.entries.append(e)
                 continue
-            if b[lho:lho + 4] != b"PK\x03\x04" or lho + 30 > end:
-                raise ZipError("no local header for %r" % e.name)
-            lnl, lxl = struct.unpack_from("<HH", b, lho + 26)
-            e.data_start = lho + 30 + lnl + lxl
-            e.data_end = min(e.data_start + csize, end)       # a deflate stream is self-terminating; stored data needs the exact size
-            if e.data_start > end:
-                raise ZipError("member data overruns file")
-            e.rec_end = e.data_end
+            # the local header is visited only when the member is read (see Entry.data); a bad one is that member's problem
+            e.data_start = None
+            if b[lho:lho + 4] == b"PK\x03\x04" and lho + 30 <= end:
+                lnl, lxl = struct.unpack_from("<HH", b, lho + 26)
+                if lho + 30 + lnl + lxl <= end:
+                    e.data_start = lho + 30 + lnl + lxl
+                    e.data_end = min(e.data_start + csize, end)       # a deflate stream is self-terminating; stored data needs the exact size
+                    e.rec_end = e.data_end
+            if e.data_start is None:
+                e.data_end = e.rec_end = None
             self.entries.append(e)
         if p != cdoff + cdsize:
             raise ZipError("central directory size mismatch")
+        if (count & 0xffff) != (n & 0xffff):
+            raise ZipError("entry count mismatch")
         # data descriptors / gaps: a record extends to the next record (or the central directory / a signing block)
         starts = sorted([e.lho for e in self.entries] + [cdoff])
         for e in self.entries:
             nxt = [x for x in starts if x > e.lho]
-            if nxt and nxt[0] >= e.data_end and (e.flags & 8):
+            if e.data_start is not None and nxt and nxt[0] >= e.data_end and (e.flags & 8):
                 e.rec_end = min(nxt[0], e.data_end + 24)
 
     def names(self):
@@ -143,6 +152,9 @@ class Zip:
         r = []
         for e in self.entries:
             n = e.name.decode("latin-1")
+            if e.data_start is None:
+                r.append((e.cd_start, e.cd_end, "cd:" + n))
+                continue
             r.append((e.lho, e.data_start, "lfh:" + n))
             if e.data_end > e.data_start:
                 r.append((e.data_start, e.data_end, "data:" + n))
@@ -155,13 +167,16 @@ class Zip:
         r.append((self.eocd, self.end, "eocd"))
         return sorted(r)
 
-    def members_view(self, special=None):
+    def members_view(self, special=None, skip=None):
         """tuple of (name, content-or-special) in central directory order is NOT protected by JAR/OPC (order), names and contents are:
         returns a sorted tuple; duplicates are kept (a duplicate name is a different archive)"""
         out = []
         for e in self.entries:
             if e.name.endswith(b"/"):
                 continue        # directory entries carry no content for any standard reader and are not signed by JAR/OPC
+            if skip and skip(e.name):
+                out.append((e.name, ("unprotected",)))
+                continue
             c = e.data()
             if zlib.crc32(c) & 0xffffffff != e.crc:
                 raise ZipError("crc mismatch for %r" % e.name)
@@ -206,13 +221,111 @@ def jar_view(b):
 
 
 # ---------------------------------------------------------------------------------------------- XAP
-def xap_parts(b):
-    """Silverlight XAP: <zip archive> <signature blob> trailer{u32 'XAPS'-style magic fields}. The trailer is the last 8/10 bytes;
-    layout (from the published description of signed XAPs): ... zip | hdr(u32 unknown=1? , u32 size) blob | u16 magic, u16 1, u32 trailer_size"""
-    if len(b) < 10:
+XAP_MAGIC = 0x53706158      # "XapS"
+
+
+def xap_layout(b):
+    """Silverlight signed XAP: <zip archive> | u16 1, u16 1, u32 sigsize | Authenticode PKCS#7 | "XapS", u16 1, u32 sigsize+8"""
+    if len(b) < 18:
         raise ZipError("short xap")
-    magic, unknown, tsize = struct.unpack_from("<HHI", b, len(b) - 8)
-    return magic, unknown, tsize
+    magic, unk, tsize = struct.unpack_from("<IHI", b, len(b) - 10)
+    if magic != XAP_MAGIC:
+        raise ZipError("no XapS trailer")
+    hdr = len(b) - 10 - tsize
+    if hdr < 22 or tsize < 8:
+        raise ZipError("trailer size out of range")
+    u1, u2, ssize = struct.unpack_from("<HHI", b, hdr)
+    if hdr + 8 + ssize > len(b) - 10:
+        raise ZipError("signature size out of range")
+    return hdr, hdr + 8, hdr + 8 + ssize
+
+
+def xap_view(b):
+    """the Authenticode digest covers the whole ZIP archive that precedes the signature header; the blob is a CMS. The two 16-bit
+    fields of the header and the one in the trailer have no documented meaning and are not digested."""
+    try:
+        hdr, s, e = xap_layout(b)
+        v = c02_der.cms_view(bytes(b[s:e]))
+        if v is None:
+            return None
+        return ("xap", hashlib.sha256(bytes(b[:hdr])).digest(), hdr, v, bytes(b[e:len(b) - 10]))
+    except (ZipError, struct.error):
+        return None
+
+
+def xap_regions(b):
+    from vlib import c02_bin
+    hdr, s, e = xap_layout(b)
+    r = []
+    try:
+        r = Zip(b, limit=hdr).regions()
+    except ZipError:
+        pass
+    r += [(hdr, hdr + 4, "xap-header-unknown"), (hdr + 4, hdr + 8, "xap-header-sigsize")] + c02_bin.cms_regions(b, s, e)
+    n = len(b)
+    r += [(n - 10, n - 6, "xap-trailer-magic"), (n - 6, n - 4, "xap-trailer-unknown"), (n - 4, n, "xap-trailer-size")]
+    return r
+
+
+# ---------------------------------------------------------------------------------------------- OPC / VSIX
+def vsix_view(b):
+    """OPC digital signature (ECMA-376-2 §13): every part named in the signature's Manifest is protected by its digest, the
+    signature part is an XML signature (view: canonical XML, see c02_xml), relationship parts are referenced like parts.
+    [Content_Types].xml is not a part and cannot be referenced: not protected by the format. Part names are protected
+    (references are by name). A part that no reference names is unsigned content: its presence changes the view."""
+    from vlib import c02_xml
+    try:
+        z = Zip(b)
+
+        def special(name, c):
+            if name.lower().endswith(b".psdsxs"):
+                v = c02_xml.canon_view(c)
+                if v is None:
+                    raise ZipError("signature part is not well-formed XML")
+                return v
+            return None
+        mv = z.members_view(special, skip=lambda n: n == b"[Content_Types].xml")
+        if not any(n.lower().endswith(b".psdsxs") for n, _ in mv):
+            return None
+        return ("vsix", mv)
+    except (ZipError, struct.error, IndexError):
+        return None
+
+
+# ---------------------------------------------------------------------------------------------- APPX
+APPX_SIG = b"AppxSignature.p7x"
+
+
+def appx_view(b):
+    """MS-APPX signature: AppxSignature.p7x = "PKCX" + PKCS#7 whose indirect data carries AXPC (hash of every local file record
+    before the signature), AXCD (hash of the central directory, zip64 end records and end record as they are without the
+    signature entry), AXCT/AXBM/AXCI (content types, block map, code integrity catalog). Protected: every byte before the
+    signature's local record, every central directory entry but the signature's, the end records apart from their count/size/
+    offset fields (which depend on the signature entry), and the p7x. The signature's own local record framing is not."""
+    try:
+        z = Zip(b)
+        sig = z.get(APPX_SIG)
+        if sig is None or sig is not z.entries[-1]:
+            return None
+        c = sig.data()
+        if c[:4] != b"PKCX":
+            return None
+        v = c02_der.cms_view(c[4:])
+        if v is None:
+            return None
+        cd = b"".join(bytes(b[e.cd_start:e.cd_end]) for e in z.entries if e is not sig)
+        tail = bytearray(b[z.cd_start + z.cd_size:z.file_end])
+        base = z.cd_start + z.cd_size
+        if z.z64eocd is not None:
+            o = z.z64eocd - base
+            tail[o + 24:o + 56] = b"\0" * 32
+            o = z.z64loc - base
+            tail[o + 8:o + 16] = b"\0" * 8
+        o = z.eocd - base
+        tail[o + 8:o + 20] = b"\0" * 12
+        return ("appx", hashlib.sha256(bytes(b[:sig.lho])).digest(), hashlib.sha256(cd).digest(), bytes(tail), v)
+    except (ZipError, struct.error, IndexError):
+        return None
 
 
 # ---------------------------------------------------------------------------------------------- APK v2
@@ -252,7 +365,7 @@ def apk_view(b):
         v2 = [bytes(b[s:e]) for pid, s, e in pairs if pid == APK_V2_ID]
         if len(v2) != 1:
             return None
-        eocd = bytearray(b[z.eocd:z.end])
+        eocd = bytearray(b[z.eocd:z.file_end])        # section 4 runs to the end of the file
         eocd[16:20] = b"\0\0\0\0"
         # the central-directory offset must equal the end of the signing block: a consistent archive is part of the view
         return ("apk", hashlib.sha256(bytes(b[:start])).digest(), hashlib.sha256(bytes(b[z.cd_start:z.eocd])).digest(), bytes(eocd), v2[0])
@@ -262,10 +375,14 @@ def apk_view(b):
 
 def apk_regions(b):
     z, start, pairs = apk_parts(b)
-    r = [x for x in z.regions() if x[1] <= start or x[0] >= z.cd_start]
+    r = [(0, start, "zip-entries")]
     r.append((start, start + 8, "sigblock-size1"))
     for pid, s, e in pairs:
-        r.append((s - 12, s, "sigblock-pair-hdr:%08x" % pid))
-        r.append((s, e, "sigblock-pair:%08x" % pid))
+        r.append((s - 12, s, "sigblock-pair-hdr"))
+        r.append((s, e, "sigblock-v2" if pid == APK_V2_ID else "sigblock-other-pair"))
     r.append((z.cd_start - 24, z.cd_start, "sigblock-size2-magic"))
+    r.append((z.cd_start, z.eocd, "central-directory"))
+    r.append((z.eocd, z.eocd + 16, "eocd"))
+    r.append((z.eocd + 16, z.eocd + 20, "eocd-cd-offset"))
+    r.append((z.eocd + 20, z.file_end, "eocd"))
     return sorted(r)
